@@ -600,7 +600,7 @@ class Server(BaseComponent):
             socks = [sock]
 
         for sock in socks:
-            if not self._buffers[sock]:
+            if not self._buffers.get(sock):
                 self._close(sock)
             elif sock not in self._closeq:
                 self._closeq.append(sock)
@@ -737,11 +737,11 @@ class Server(BaseComponent):
 
     @handler('_write', priority=1)
     def _on_write(self, sock):
-        if self._buffers[sock]:
+        if self._buffers.get(sock):
             data = self._buffers[sock].popleft()
             self._write(sock, data)
 
-        if not self._buffers[sock]:
+        if not self._buffers.get(sock):
             if sock in self._closeq:
                 self._closeq.remove(sock)
                 self._close(sock)
